@@ -367,10 +367,10 @@ def design_live(pid, tier):
     cfg = os.path.join(outdir(pid), 'live.cfg')
     big = tier != 'quick'
     with open(cfg, 'w') as f:
-        f.write('SPECIFICATION LSpec\nCONSTANTS\n  Peers = {%s}\n  NPieces = 3\n  NBlocks <- N1x3\n  EndGame = 2\n  MaxUnchoked = 1\n  OptRounds = 3\n'
+        f.write('SPECIFICATION LSpec\nCONSTANTS\n  Peers = {%s}\n  NPieces = %d\n  NBlocks <- %s\n  EndGame = 2\n  MaxUnchoked = 1\n  OptRounds = 3\n'
                 '  KALimit = 2\n  Pipeline = {2}\n  Rates = {0}\n  FrameKinds = {}\n  BFMenu = {}\n  Own0 = {}\n  HS0 = FALSE\n  Has <- %s\n  Leavers = {%s}\n'
                 'INVARIANTS NoDeadEnd OwnedImpliesStored ReservedBacked\nPROPERTIES EventuallyComplete\nCHECK_DEADLOCK FALSE\n'
-                % (('"a", "b", "c"', 'HasB', '"a"') if big else ('"a", "b"', 'HasA', '"b"')))
+                % (('"a", "b"', 3, 'N1x3', 'HasA', '"b"') if big else ('"a", "b"', 2, 'N1x2', 'HasQ', '"b"')))
     res = run_tlc('MC_SwarmLive', cfg, pid, workers=8 if tier == 'quick' else 14, timeout=5400, tag='live', xmx='16g')
     viol = None
     if res['violation']:
